@@ -25,7 +25,7 @@ void snap () {
 }
 mapping scripts = ([]);
 mapping pols = ([ "cf" : ([ "u1" : "s:u1", "u2" : "s:u2", "bb" : "s:Backbone", "root" : "s:Root", "odd" : "i:0" ]),
-                  "vs" : ([ ]), "co" : ([ ]), "vb" : ([ ]) ]);
+                  "vs" : ([ ]), "co" : ([ ]), "vb" : ([ ]), "vo" : ([ ]) ]);
 mapping uid_names = ([ ]);      // "root" / "bb" -> what get_root_uid() / get_bb_uid() of the master answer now
 void set_uid_name (string kind, string n) { uid_names[kind] = n; }
 string uid_name (string kind) { return uid_names[kind]; }
@@ -43,6 +43,17 @@ string script (string key) { return scripts[key]; }
 void enter () { nest++; }
 void leave () { nest--; }
 int depth () { return nest; }
+string pending_connect;
+string take_connect () { string c; c = pending_connect; pending_connect = 0; return c; }
+string *preloads = ({ });
+string *take_preloads () { string *p; p = preloads; preloads = ({ }); return p; }
+int reloading_master;
+int reloading () { return reloading_master; }
+void set_reloading (int x) { reloading_master = x; }
+object driven;      // the object whose scheduled op the coming backend tick runs
+// after the tick: an object that destructed itself could not print its snapshot
+int driven_set;
+void tick_done () { if (driven_set && !driven) snap (); driven = 0; driven_set = 0; }
 void act (string oid, string op) {
   object o;
   mixed e;
@@ -50,6 +61,11 @@ void act (string oid, string op) {
   nest = 0;
   actors = ({ });
   if (!o) { VL ("do " + oid + " " + op); VL ("r nobj"); snap (); return; }
+  // driver-started contexts: the op is only scheduled here; the harness then lets one backend tick run it
+  if (oid == "m" && op[0..7] == "connect,") { pending_connect = op[8..]; return; }
+  if (oid == "m" && op[0..7] == "preload,") { preloads = ({ op[8..] }); return; }
+  if (op[0..5] == "later,") { driven = o; driven_set = 1; o->sched_co (op[6..]); return; }
+  if (op[0..2] == "hb,") { driven = o; driven_set = 1; o->sched_hb (op[3..]); return; }
   e = catch (o->run_op (op));
   if (e) { VL ("r uncaught"); snap (); }
   else if (!o) snap ();
